@@ -249,6 +249,9 @@ type c13Scenario struct {
 	First int   `json:"first"`
 	N     int   `json:"n"`
 	Par   int   `json:"par"`
+	// InFlight: also run the bucket-leaves-while-a-request-is-in-flight scenarios (plain build children only:
+	// they take 5 s of real time each way)
+	InFlight bool `json:"in_flight"`
 }
 
 // c13ActiveHost: a manager with a short cleanup period and one host that is used continuously (gaps far below
@@ -297,6 +300,60 @@ func c13ActiveHost(rep *childReport, seed int64, idx int) {
 	}
 }
 
+// c13InFlight: the bucket of a host leaves the table (LFU eviction by other hosts, or the periodic cleanup)
+// while a request to that host is in flight; the failure status arrives afterwards. The next request to
+// that host must still wait for the penalty. (A bucket evicted AFTER its penalty was recorded is a
+// different matter - the bounded table forgets it by design - and is not produced here: nothing else
+// touches the manager between the failure report and the next Wait.) Real clock, lower bound only: a
+// loaded machine can only make the measured wait longer.
+func c13InFlight(rep *childReport, seed int64, idx int) {
+	type variant struct {
+		how    string
+		status int
+	}
+	vs := []variant{{"evicted", 429}, {"evicted", 403}, {"evicted", 408}, {"evicted", 425}, {"cleaned-up", 408}, {"cleaned-up", 429}}
+	var wg sync.WaitGroup
+	for k, v := range vs {
+		wg.Add(1)
+		go func(k int, v variant) {
+			defer wg.Done()
+			ctx, cancel := context.WithCancel(context.Background())
+			defer cancel()
+			h := fmt.Sprintf("inflight%d-%d.example", idx, k)
+			var bm *ratelimiter.BucketManager
+			if v.how == "evicted" {
+				bm = ratelimiter.NewBucketManager(ctx, 2, 10, 100, time.Hour)
+				defer bm.Close()
+				bm.Wait(h) // the request to h is released and now in flight
+				for _, o := range []string{"a", "a", "b", "b"} {
+					bm.Wait(o + h) // two busier hosts fill the table: h is the least frequently used
+				}
+			} else {
+				bm = ratelimiter.NewBucketManager(ctx, 8, 10, 100, 150*time.Millisecond)
+				defer bm.Close()
+				bm.Wait(h)
+				for i := 0; i < 400 && bm.VerifBucket(h) != nil; i++ {
+					time.Sleep(10 * time.Millisecond) // a slow response: nothing touches h for longer than the cleanup period
+				}
+			}
+			if bm.VerifBucket(h) != nil {
+				rep.inconclusive("in-flight-bucket-still-resident")
+				return
+			}
+			t0 := time.Now()
+			bm.AdjustOnFailure(h, v.status)
+			bm.Wait(h)
+			el := time.Since(t0)
+			rep.event("in_flight_runs", 1)
+			rep.distinct(fmt.Sprintf("in-flight/%s/%d", v.how, v.status))
+			if el < 4950*time.Millisecond {
+				rep.violation("penalty-lost-when-bucket-left-before-the-response/"+v.how, fmt.Sprintf("host %s: request released, bucket %s while the request was in flight, then status %d reported; the next request was released %v after the report (penalty: 5 s)", h, v.how, v.status, el.Round(time.Millisecond)), map[string]any{"how": v.how, "status": v.status, "waited_ms": el.Milliseconds()})
+			}
+		}(k, v)
+	}
+	wg.Wait()
+}
+
 func c13Child(scPath string) int {
 	var sc c13Scenario
 	if err := readJSON(scPath, &sc); err != nil {
@@ -311,6 +368,9 @@ func c13Child(scPath string) int {
 	parallel(sc.N, sc.Par, func(i int) { c13Sequence(rep, sc.Seed, sc.First+i) })
 	for i := 0; i < 2; i++ {
 		c13ActiveHost(rep, sc.Seed, sc.First+i)
+	}
+	if sc.InFlight {
+		c13InFlight(rep, sc.Seed, sc.First)
 	}
 	rep.Evaluations = rep.Events["sequences"]
 	rep.write(os.Getenv("VZ_CHILD_DIR"))
@@ -329,7 +389,7 @@ func c13(r *vc.Run) int {
 			bin = os.Getenv("VZ_BIN_RACE")
 			label += "-race"
 		}
-		sc := c13Scenario{Seed: r.Seed, First: i * per, N: per, Par: 30}
+		sc := c13Scenario{Seed: r.Seed, First: i * per, N: per, Par: 30, InFlight: i%4 == 1}
 		res := runChild(bin, "c13", sc, filepath.Join(r.Scratch, fmt.Sprintf("c13-%d", i)), 15*time.Minute)
 		absorb(r, m, res, label, sc, true)
 	})
@@ -343,7 +403,7 @@ func c13(r *vc.Run) int {
 	pipe := c13Pipeline(r)
 	cov := map[string]any{
 		"pipeline_level":      pipe,
-		"evaluations":         m.Evaluations + m.Events["active_host_runs"] + pipe["runs"].(int),
+		"evaluations":         m.Evaluations + m.Events["active_host_runs"] + m.Events["in_flight_runs"] + pipe["runs"].(int),
 		"distinct_nontrivial": len(m.Distinct),
 		"rule":                "(plus the active-host runs and the pipeline-level runs, counted as one evaluation each) one evaluation = one seeded sequence of 30-80 acquire/failure/success events (failure streaks up to 80) with 1-8 concurrent waiters on the real token bucket under a virtual clock; distinct = distinct (capacity, rate, waiters, streak mode, releases, hook events) with at least one release",
 		"samples":             m.Samples,
@@ -356,7 +416,7 @@ func c13(r *vc.Run) int {
 	return r.Finish("exploration", cov, []string{
 		"time is virtual: verdicts depend only on the stamps the code itself used under the bucket mutex",
 		"reference = most permissive bucket the statement allows (capacity, configured rate); penalty lower bound = min(5s*2^(k-1),30s) for the k-th consecutive 429/403/408/425 without a success in between",
-		"per bucket lifetime (hosts <= maxBuckets, no eviction)",
+		"per bucket lifetime (hosts <= maxBuckets, no eviction), except the in-flight scenarios: a bucket that leaves the table between the release of a request and the report of its status (LFU eviction, cleanup) must not lose the penalty; a bucket evicted after its penalty was recorded is forgotten by design of the bounded table and is not produced",
 		"pipeline level: arrival times of first-attempt requests per host at the origin (real clock, 0.25 s slack) must satisfy the window bound, and after a 429 no request for a not-yet-requested URL of that host may arrive for 5 s; retries of a URL are excluded because the archiver retries without consulting the limiter by design",
 	}, 50)
 }
